@@ -30,6 +30,18 @@ def run(tier, scratch, t0, replay=None):
                 f.write(text)
             srcs.append(p)
             gi.append({"src": p, "pyc": p + "c", "filename": os.path.basename(p)})
+        # programs that are always present, one per feature template (line steps of -128 and beyond, line gaps, closures,
+        # exception tables, coroutines, the opcode zoo ...)
+        for j, tname in enumerate(["t_backward_lines", "t_line_gaps", "t_opcode_zoo", "t_closure", "t_try_nest", "t_async", "t_class3",
+                                   "t_long_loop", "t_compare", "t_comp"]):
+            text, tags = G.gen_single(K.get_seed(), h, tname)
+            if text is None:
+                continue
+            p = os.path.join(wd, "gm%02d_%s.py" % (j, tname))
+            with open(p, "w", encoding="utf-8", errors="surrogatepass") as f:
+                f.write(text)
+            srcs.append(p)
+            gi.append({"src": p, "pyc": p + "c", "filename": os.path.basename(p)})
         gen_items[h] = (wd, gi)
         rng.shuffle(srcs)
         for bi, chunk in enumerate(K.chunks(srcs, 12 if quick else 100)):
